@@ -27,6 +27,37 @@ def mk_decoder(name):
     return t
 
 
+def mk_composed(name):
+    """the real link-layer DataPacketReceiver feeding the decoder, wired as in USB3ControlEndpoint / the protocol layer
+    (sink tapped, header, packet_good / packet_bad); inputs are raw PHY words, the decoder's input interface is observed"""
+    def build():
+        from amaranth import Elaboratable, Module
+        from luna.gateware.usb.usb3.link.data import DataPacketReceiver
+        from luna.gateware.usb.usb3.application.request import SuperSpeedSetupDecoder
+
+        class ReceiverAndDecoder(Elaboratable):
+            def __init__(self):
+                self.receiver = DataPacketReceiver(); self.decoder = SuperSpeedSetupDecoder()
+            def elaborate(self, platform):
+                m = Module()
+                m.submodules.receiver = rx = self.receiver
+                m.submodules.decoder = dec = self.decoder
+                m.d.comb += [dec.sink.tap(rx.source), dec.header_in.eq(rx.header),
+                             dec.rx_good.eq(rx.packet_good), dec.rx_bad.eq(rx.packet_bad)]
+                return m
+        d = ReceiverAndDecoder(); rx = d.receiver; p = d.decoder.packet
+        ins = [("data", rx.sink.data), ("ctrl", rx.sink.ctrl), ("valid", rx.sink.valid)]
+        outs = [("if_valid", rx.source.valid), ("if_first", rx.source.first), ("if_last", rx.source.last),
+                ("if_data", rx.source.payload), ("if_setup", rx.header.setup), ("if_good", rx.packet_good),
+                ("if_bad", rx.packet_bad),
+                ("recipient", p.recipient), ("type", p.type), ("is_in_request", p.is_in_request), ("request", p.request),
+                ("value", p.value), ("index", p.index), ("length", p.length), ("received", p.received)]
+        return d, ins, outs
+    t = Target(name, build)
+    t.params = dict(kind="composed")
+    return t
+
+
 SMALL = [(1, 0, bytes([0x12, 0x34, 0x56, 0x78, 0x9A])),            # 5 bytes: one full word + 1 byte
          (2, 0, bytes([1, 2, 3, 4, 5, 6, 7, 8])),                   # 8 bytes: two full words
          (3, 1, bytes([0xEE, 0xFF, 0x11]))]                         # 3 bytes: a single partial word
@@ -71,7 +102,7 @@ TWO = [SMALL[0], SMALL[2]]
 
 
 def targets(tier):
-    ts = [mk_decoder("setupdec"), mk_handler("desc_two", lambda: list(TWO)), mk_handler("desc_example", _example_collection)]
+    ts = [mk_decoder("setupdec"), mk_composed("rx_setupdec"), mk_handler("desc_two", lambda: list(TWO)), mk_handler("desc_example", _example_collection)]
     if tier != "quick":
         ts.append(mk_handler("desc_small", lambda: list(SMALL)))
     return ts
@@ -98,7 +129,14 @@ def _packet(rng, nbytes, setup, verdict, payload=None, gap=None):
             out.append(dict(_idle(), setup=setup))
     for _ in range(gap if gap is not None else rng.choice([0, 1, 1, 3])):
         out.append(dict(_idle(), setup=setup))
-    if verdict == "abort":                       # link error: rx_bad before the last word
+    if isinstance(verdict, tuple):               # ("kword", k): K-symbol in word k -> rx_bad in the very cycle of that word
+        words = [j for j, c in enumerate(out) if c["valid"]]
+        if not words:
+            out.append(dict(_idle(), rx_bad=1, setup=setup))
+        else:
+            j = words[min(verdict[1], len(words) - 1)]
+            out = out[:j + 1]; out[j] = dict(out[j], rx_bad=1)
+    elif verdict == "abort":                     # link error: rx_bad before the last word
         out = out[:max(1, len(out) // 2)]
         for c in out: c["last"] = 0
         out.append(dict(_idle(), rx_bad=1))
@@ -109,22 +147,85 @@ def _packet(rng, nbytes, setup, verdict, payload=None, gap=None):
     return out
 
 
+def _hdr_crc16(dws):
+    """CRC-16 of a header packet (poly 0x100B, bits LSB first per dword; checked against the recorded packet)"""
+    reg = 0xFFFF
+    for w in dws:
+        for k in range(32):
+            fb = ((reg >> 15) & 1) ^ ((w >> k) & 1)
+            reg = (reg << 1) & 0xFFFF
+            if fb: reg ^= 0x100B
+    return int("{:016b}".format(reg ^ 0xFFFF)[::-1], 2)
+
+
+def _dp(payload, setup, kpos=None, bad_crc=False):
+    """a data packet on the PHY word stream: HPSTART, header (dw0..dw2, link control word with CRC-16; the link control
+    bits and their CRC-5 are those of the recorded packet), DPPSTART, payload + CRC-32, END framing.
+    kpos: replace payload byte kpos by the K-symbol 0xFE (what an 8b10b decode error delivers)."""
+    import zlib
+    dw = [0x00000008, (len(payload) << 16) | (setup << 15), 0x08000000]
+    words = [(0xF7FBFBFB, 15)] + [(w, 0) for w in dw] + [(0xA8020000 | _hdr_crc16(dw), 0), (0xF75C5C5C, 15)]
+    crc = zlib.crc32(payload) ^ (0x5A5A5A5A if bad_crc else 0)
+    syms = [(b, 0) for b in payload + crc.to_bytes(4, "little")] + [(0xFD, 1)] * 3 + [(0xF7, 1)]
+    if kpos is not None:
+        syms[kpos] = (0xFE, 1)
+    while len(syms) % 4:
+        syms.append((0, 0))
+    for j in range(0, len(syms), 4):
+        words.append((sum(syms[j + b][0] << (8 * b) for b in range(4)), sum(syms[j + b][1] << b for b in range(4))))
+    return [dict(data=d, ctrl=c, valid=1) for d, c in words]
+
+
 def traces(target, rng, tier):
     q = tier == "quick"
     out = []
     if target.params["kind"] == "decoder":
         # tests/test_usb3_request.py: a good vendor request
         out.append(_packet(rng, 8, 1, "good", payload=[0x2211AAC1, 0x00043344], gap=1) + [_idle()] * 2)
+        # a packet aborted by rx_bad in the cycle of its k-th word (first word, complete last word, short words),
+        # followed by the retried SETUP / a non-setup packet of 4 or 8 bytes
+        for nbytes in (8, 8, 4, 6, 12):
+            for k in range((nbytes + 3) // 4):
+                for nxt_bytes, nxt_setup in ((8, 1), (8, 0), (4, 0)):
+                    out.append(_packet(rng, nbytes, 1, ("kword", k), gap=0) + _packet(rng, nxt_bytes, nxt_setup, "good") + [_idle()] * 2)
         for k in range(25 if q else 200):
             tr = [_idle()] * rng.choice([0, 1, 3])
             for _ in range(rng.choice([1, 2, 4, 8])):
                 nbytes = rng.choice([8, 8, 8, 8, 0, 1, 3, 4, 5, 6, 7, 9, 12, 16, 40])
-                tr += _packet(rng, nbytes, int(rng.random() < 0.7), rng.choice(["good", "good", "good", "bad", "abort"]))
+                tr += _packet(rng, nbytes, int(rng.random() < 0.7),
+                              rng.choice(["good", "good", "good", "bad", "abort", ("kword", rng.randrange(3))]))
             out.append(tr)
         for k in range(5 if q else 40):           # outside the environment: arbitrary control bits
             out.append([dict(valid=rng.choice([0, 0, 15, 15, 3, 7]), first=rng.getrandbits(1), last=rng.getrandbits(1),
                              data=rng.getrandbits(32), setup=rng.getrandbits(1), rx_good=int(rng.random() < 0.2),
                              rx_bad=int(rng.random() < 0.1)) for _ in range(rng.choice([5, 40, 120]))])
+    elif target.params["kind"] == "composed":
+        idle = [dict(data=0, ctrl=0, valid=1)]
+        def seq(*pkts):
+            tr = idle * 3
+            for p in pkts:
+                tr = tr + p + idle * rng.choice([2, 4, 6])
+            return tr
+        retry = bytes([0x80, 0x06, 0x00, 0x02, 0x00, 0x00, 0x09, 0x00])
+        # K-symbol at every payload position of a setup-flagged 8-byte packet, then the good retry / a non-setup packet
+        for pos in range(8):
+            bad = _dp(bytes([0x80, 0x06, 0x00, 0x01, 0x00, 0x00, 0x12, 0x00]), 1, kpos=pos)
+            out.append(seq(bad, _dp(retry, 1)))
+            out.append(seq(bad, _dp(bytes(rng.getrandbits(8) for _ in range(8)), 0)))
+            out.append(seq(bad, _dp(bytes(rng.getrandbits(8) for _ in range(4)), 0), _dp(retry, 1)))
+        # the recorded SET_ADDRESS packet of tests/test_usb3_data.py
+        out.append(seq([dict(data=d, ctrl=c, valid=1) for d, c in
+                        [(0xF7FBFBFB, 15), (0x00000008, 0), (0x00088000, 0), (0x08000000, 0), (0xA8023E0F, 0),
+                         (0xF75C5C5C, 15), (0x001E0500, 0), (0x00000000, 0), (0x0EC69325, 0)]]))
+        for k in range(10 if q else 80):
+            pk = []
+            for _ in range(rng.choice([1, 2, 3, 5])):
+                n = rng.choice([8, 8, 8, 0, 1, 3, 4, 5, 6, 7, 9, 12, 16])
+                payload = bytes(rng.getrandbits(8) for _ in range(n))
+                kind = rng.choice(["good", "good", "good", "crc", "k"])
+                pk.append(_dp(payload, int(rng.random() < 0.7), kpos=(rng.randrange(n) if kind == "k" and n else None),
+                              bad_crc=(kind == "crc")))
+            out.append(seq(*pk))
     else:
         triples = target.params["triples"]
         keys = [(t << 8) | i for t, i, _ in triples]
@@ -193,6 +294,12 @@ def obligations(targets, tier):
                                          "good / bad / aborted, with and without the setup flag; full-width data)"))
             obs.append(tie.corr(f"corr_{t.name}", t, mstep="sd_step true", m0="sd_init",
                                 describe="property-satisfying decoder model vs simulator, full-width data, also outside the environment"))
+        elif t.params["kind"] == "composed":
+            obs.append(tie.cmon(f"spec_{t.name}", t, mon="sdc_mon", m0="0",
+                                describe="DataPacketReceiver -> SuperSpeedSetupDecoder: a setup request is reported iff a good setup-flagged "
+                                         "8-byte data packet was received, with exactly its bytes (K-symbols injected at every payload "
+                                         "position, bad CRCs, lengths 0..16, followed by retries / non-setup packets); the receiver's "
+                                         "deliveries are also checked to stay inside the decoder environment sd_env_ok"))
         elif t.params["kind"] == "handler":
             descs = _coq_descs(t.params["triples"])
             if t.name == "desc_two":
@@ -267,7 +374,7 @@ def tie_theorem_names(targets, tier):
     for t in targets:
         if t.params["kind"] == "decoder":
             names.append(f"C48_{t.name}")
-        else:
+        elif t.params["kind"] == "handler":
             names.append(f"C48_{t.name}_bytes")
             if t.name == "desc_two":
                 names.append(f"C48_{t.name}")
